@@ -103,8 +103,13 @@ def random_texts(rng, n):
                 r = rng.random()
                 if r < 0.3:
                     lines.append(rng.choice(KINDS))
-                else:
+                elif r < 0.92:
                     lines.append(''.join(rng.choice(alphabet[:6] + alphabet[8:10] + alphabet[16:]) for _ in range(rng.randint(0, 6))))
+                else:
+                    # a long line (sentences of words, past any wrapping width), plain or indented: it stays one line
+                    words = [rng.choice(('the', 'quick', 'brown', 'fox', 'x' * rng.randint(1, 30), 'a.', '-', 'http://example.org/' + 'p' * rng.randint(1, 90)))
+                             for _ in range(rng.randint(8, 60))]
+                    lines.append(rng.choice(('', '', ' ', '  ', '\t')) + rng.choice((' ', ' ', '  ')).join(words))
             yield rng.choice(('\n', '\n', '\r\n', '\r')).join(lines) + rng.choice(('', '\n'))
         else:
             yield ''.join(rng.choice(alphabet) for _ in range(rng.randint(0, 12)))
